@@ -64,12 +64,56 @@ def values(cfg, lang, rng):
     return vals
 
 
+def random_values(cfg, lang, rng, n):
+    """n random values of the kinds in the statement, written in the configuration's convention (thorough tier)"""
+    dec = cfg["dec"]
+
+    def num(maxint=10 ** 9, frac=True):
+        ip = str(rng.randint(0, rng.choice([9, 999, 10 ** 6, maxint])))
+        fp = str(rng.randint(1, 9999)).rstrip("0") if frac and dec and rng.random() < 0.6 else ""
+        return ("-" if rng.random() < 0.25 else "") + ip + (dec + fp if fp else "")
+    money = eligible_money()
+    dw = render.duration_words(lang)
+    zones = [z["name"] for z in render.usable_zones()] + [g[0] for g in render.GMT_FORMS]
+    mn = render.month_names(lang)
+    units = sorted(render.unit_tables().items())
+    vals = []
+    for _ in range(n):
+        k = rng.choice(["num", "pct", "money", "dur", "time", "date", "unit", "based"])
+        if k == "num":
+            vals.append(("num", num()))
+        elif k == "pct":
+            t = num(10 ** 7)
+            vals.append(("pct", t + "%" if rng.random() < 0.5 else ("-%" + t[1:] if t.startswith("-") and rng.random() < 0 else "%" + t.lstrip("-"))))
+        elif k == "money":
+            vals.append(("money", "%s %s" % (num(10 ** 7), rng.choice(money))))
+        elif k == "dur":
+            us = rng.sample(["year", "month", "week", "day", "hour", "minute", "second"], rng.randint(1, 4))
+            vals.append(("dur", " ".join("%d %s" % (c, dw[u][c % len(dw[u])]) for u in us for c in [rng.randint(1, rng.choice([3, 60, 500]))])))
+        elif k == "time":
+            t = "%d:%02d" % (rng.randint(0, 23), rng.randint(0, 59)) + (":%02d" % rng.randint(0, 59) if rng.random() < 0.5 else "")
+            vals.append(("time", t + (" " + rng.choice(zones) if lang == "en" and rng.random() < 0.7 else "")))
+        elif k == "date":
+            y, m, d = rng.randint(1, 9999), rng.randint(1, 12), rng.randint(1, 28)
+            r = rng.random()
+            vals.append(("date", "%d/%d/%d" % (d, m, y) if r < 0.4 else "%d %s %d" % (d, rng.choice(mn[m]["long"] + mn[m]["short"]), y) if r < 0.8 else
+                         "%d %s" % (d, rng.choice(mn[m]["long"]))))
+        elif k == "unit":
+            u, tab = rng.choice(units)
+            vals.append(("unit", "%s %s" % (num(10 ** 6), rng.choice(tab["lit"]))))
+        elif lang == "en":
+            x = rng.randint(0, rng.choice([255, 2 ** 31, 2 ** 52]))
+            vals.append(("num", rng.choice(["0x%X" % x, "0b%s" % bin(x)[2:], "0o%o" % x, "%d to hex" % x, "%d to octal" % x, "%d to binary" % x])))
+    return vals
+
+
 def run(rep):
     quick = rep.tier == "quick"
     render.check_pool_words()
     rep.rule = ("values of every kind in the statement (numbers on rounding boundaries, percentages, money in the currencies whose printed symbol reads back, durations incl. carries, "
                 "times with zones, dates incl. the current year, all 33 units, based integers) x 4 separator pairs x digits {0,2,3} x zero-fraction removal x languages; a case = one value "
-                "under one configuration and language: evaluate, feed the printed form back, compare kind and printed form (TLC, Trace.tla roundtrip events). Every case is non-trivial.")
+                "under one configuration and language: evaluate, feed the printed form back, compare kind and printed form (TLC, Trace.tla roundtrip events). Every case is non-trivial. "
+                "Thorough tier: 2,500 random values of these kinds per configuration and language in addition.")
     rep.assumptions = ["the first evaluation only supplies the printed form; nothing is assumed about its value", "money only in currencies whose printed symbol maps back to the same "
                        "currency in config.json's alias table", "date-times are not in the statement's list; a zero duration prints nothing and is skipped", "TLC 1.8.0"]
     r = tlc_must_pass("MC_Duration", "MC_Duration", workers=8, timeout=900)
@@ -86,6 +130,8 @@ def run(rep):
     for ci, cfg in enumerate(cfgs):
         for lang in render.languages():
             vals = values(cfg, lang, rng)
+            if not quick:
+                vals = vals + random_values(cfg, lang, rng, 2500)     # 24 configurations x 2 languages x 2,500 random values
             for b in range(0, len(vals), 20):
                 chunk = vals[b:b + 20]
                 steps = []
